@@ -221,12 +221,17 @@ where
         };
 
         if blocks.len() == 1 {
-            // Start a single-block read
-            self.card_command(CMD17, start_idx)?;
+            // Start a single-block read - unless the card refuses the command
+            // (address out of range, ...): then there is no data phase
+            if self.card_command(CMD17, start_idx)? != 0x00 {
+                return Err(Error::ReadError);
+            }
             self.read_data(&mut blocks[0].contents)?;
         } else {
             // Start a multi-block read
-            self.card_command(CMD18, start_idx)?;
+            if self.card_command(CMD18, start_idx)? != 0x00 {
+                return Err(Error::ReadError);
+            }
             for block in blocks.iter_mut() {
                 if let Err(e) = self.read_data(&mut block.contents) {
                     // The card keeps streaming blocks until it is told to stop,
@@ -253,8 +258,12 @@ where
             None => return Err(Error::CardNotFound),
         };
         if blocks.len() == 1 {
-            // Start a single-block write
-            self.card_command(CMD24, start_idx)?;
+            // Start a single-block write - unless the card refuses the command:
+            // a card that stays in its command state would take the data
+            // block for a series of commands
+            if self.card_command(CMD24, start_idx)? != 0x00 {
+                return Err(Error::WriteError);
+            }
             self.write_data(DATA_START_BLOCK, &blocks[0].contents)?;
             self.wait_not_busy(Delay::new_write())?;
             if self.card_command(CMD13, 0)? != 0x00 {
@@ -272,7 +281,9 @@ where
             self.wait_not_busy(Delay::new_write())?;
 
             // Start a multi-block write
-            self.card_command(CMD25, start_idx)?;
+            if self.card_command(CMD25, start_idx)? != 0x00 {
+                return Err(Error::WriteError);
+            }
             for block in blocks.iter() {
                 let sent = match self.wait_not_busy(Delay::new_write()) {
                     Ok(()) => self.write_data(WRITE_MULTIPLE_TOKEN, &block.contents),
